@@ -30,6 +30,10 @@ KINDS = [
     ("add_default_for", "ALTER TABLE {T} ADD CONSTRAINT df DEFAULT 0 FOR c;"),
     ("add_fk_2", "ALTER TABLE {T} ADD FOREIGN KEY (a, b) REFERENCES o (x, y);"),
     ("create_index", "CREATE UNIQUE INDEX i ON {T} (a DESC, b);"),
+    ("drop_first", "ALTER TABLE {T} DROP COLUMN A;"),
+    ("rename_first", "ALTER TABLE {T} RENAME COLUMN a TO g;"),
+    ("modify_first", "ALTER TABLE {T} MODIFY COLUMN a varchar(5);"),
+    ("modify_last", "ALTER TABLE {T} MODIFY COLUMN c varchar(5);"),
 ]
 KNAME, KDDL = KINDS[KIND]
 
@@ -95,6 +99,17 @@ def effect_ok(base: dict, got: dict) -> bool:
         return _names(got) == ["a", "b", "c"] and got["columns"][1]["type"] == "varchar" and got["columns"][1]["size"] == 5 and \
             got["columns"][0] == base["columns"][0] and got["columns"][2] == base["columns"][2] and \
             got["alter"].get("modified_columns") == base["columns"][1]
+    if KNAME == "drop_first":
+        return got["columns"] == base["columns"][1:] and got["alter"].get("dropped_columns") == base["columns"][0]
+    if KNAME == "rename_first":
+        cols = deepcopy(base["columns"])
+        cols[0]["name"] = "g"
+        return got["columns"] == cols and got["alter"] == {"renamed_columns": [{"from": "a", "to": "g"}]}
+    if KNAME in ("modify_first", "modify_last"):
+        i = 0 if KNAME == "modify_first" else 2
+        return _names(got) == ["a", "b", "c"] and got["columns"][i]["type"] == "varchar" and got["columns"][i]["size"] == 5 and \
+            [c for j, c in enumerate(got["columns"]) if j != i] == [c for j, c in enumerate(base["columns"]) if j != i] and \
+            got["alter"].get("modified_columns") == base["columns"][i]
     if KNAME == "add_pk":
         exp["alter"] = {"primary_keys": [{"constraint_name": None, "columns": ["a"]}]}
         return got == exp
